@@ -285,25 +285,27 @@ Qed.
 (* ------------------------------------------------------------------ *)
 (* while                                                               *)
 
-Theorem close_while_sim : close_while_sim_stmt.
+Lemma close_while_core V d rb dv fuel fx rw rec d1 d2 :
+  names_ok V -> sim_res V d rb dv -> cr_exit rb = false ->
+  (forall cs A, fst (dv cs) = Some A -> finite_on V A) ->
+  rel_fixpoint fuel (rel_comp rel_empty (cr_rel rb)) = Some fx ->
+  while_correction fx = (rw, rec) ->
+  dg_insert_all (cr_dg rb) rec = ROk d1 -> dg_fusion d1 = ROk d2 ->
+  sim_res V d {| cr_index := cr_index rb; cr_rel := rw; cr_exit := dg_is_empty d2; cr_dg := d2 |}
+          (fun cs => (d_while V (fst (dv cs)), snd (dv cs))).
 Proof.
-  intros V d rb dv r [HndV HneV] Hsim Hex Hfin E.
+  intros [HndV HneV] Hsim Hex Hfin Efx Ew E1 E2.
   pose proof Hsim as [Hinv [Hinc [[Hwf [Hpwf [Hdomb Hincl]]] Hcs]]].
-  unfold close_while in E. cbv zeta in E.
   destruct (comp_empty_sem (cr_rel rb) Hwf Hpwf) as [W0 [P0 [Vs0 Hc0]]].
   pose proof (Rel_dom.rel_dom_comp rel_empty (cr_rel rb) Rel_dom.rel_dom_empty Hdomb) as D0.
   set (r0 := rel_comp rel_empty (cr_rel rb)) in *.
-  destruct (rel_fixpoint fix_fuel r0) as [fx|] eqn:Efx; [|discriminate].
-  destruct (Rel_fix_closed.rel_fixpoint_sem fix_fuel r0 fx W0 P0 Efx) as [Wf [Pf [_ [Vf Hcf]]]].
-  pose proof (Rel_dom.rel_dom_fixpoint fix_fuel r0 fx Efx D0) as Df.
+  destruct (Rel_fix_closed.rel_fixpoint_sem fuel r0 fx W0 P0 Efx) as [Wf [Pf [_ [Vf Hcf]]]].
+  pose proof (Rel_dom.rel_dom_fixpoint fuel r0 fx Efx D0) as Df.
   pose proof (Rel_corr.while_correction_sem fx Wf Pf) as HW.
   pose proof (Rel_dom.rel_dom_while_correction fx Df) as [Dw Drec].
   pose proof (fun s => while_rec_sorted fx s Pf) as Srec.
-  destruct (while_correction fx) as [rw rec] eqn:Ew. cbn [fst snd] in Dw, Drec, Srec.
+  rewrite Ew in HW, Dw, Drec, Srec. cbn [fst snd] in Dw, Drec, Srec.
   destruct HW as [Ww [Pww [Vw Hcw]]].
-  destruct (dg_insert_all (cr_dg rb) rec) as [d1|] eqn:E1; cbn [rbind] in E; [|discriminate].
-  destruct (dg_fusion d1) as [d2|] eqn:E2; cbn [rbind] in E; [|discriminate].
-  inversion E; subst r; clear E.
   set (Vr := rvars r0) in *.
   assert (HinclR : incl Vr V) by (intros v Hv; apply Hincl; apply Vs0; exact Hv).
   assert (HndR : NoDup Vr) by (destruct W0 as [H _]; exact H).
@@ -346,31 +348,46 @@ Proof.
     + split; [|discriminate]. intros _. apply Hiff. reflexivity.
 Qed.
 
+Theorem close_while_sim : close_while_sim_stmt.
+Proof.
+  intros V d rb dv r Hn Hsim Hex Hfin E.
+  unfold close_while in E. cbv zeta in E.
+  destruct (rel_fixpoint fix_fuel (rel_comp rel_empty (cr_rel rb))) as [fx|] eqn:Efx; [|discriminate].
+  destruct (while_correction fx) as [rw rec] eqn:Ew.
+  destruct (dg_insert_all (cr_dg rb) rec) as [d1|] eqn:E1; cbn [rbind] in E; [|discriminate].
+  destruct (dg_fusion d1) as [d2|] eqn:E2; cbn [rbind] in E; [|discriminate].
+  injection E as <-.
+  exact (close_while_core V d rb dv fix_fuel fx rw rec d1 d2 Hn Hsim Hex Hfin Efx Ew E1 E2).
+Qed.
+
 (* ------------------------------------------------------------------ *)
 (* counted for                                                         *)
 
-Theorem close_for_sim : close_for_sim_stmt.
+Lemma close_for_core V d rb dv x fuel fx rl rec d1 d2 :
+  names_ok V -> sim_res V d rb dv -> cr_exit rb = false ->
+  (forall cs A, fst (dv cs) = Some A -> finite_on V A) ->
+  In x V -> ~ In x (rvars (cr_rel rb)) ->
+  rel_fixpoint fuel (rel_comp (rel_zero [x]) (cr_rel rb)) = Some fx ->
+  loop_correction fx x = Some (rl, rec) ->
+  dg_insert_all (cr_dg rb) rec = ROk d1 -> dg_fusion d1 = ROk d2 ->
+  sim_res V d {| cr_index := cr_index rb; cr_rel := rl; cr_exit := dg_is_empty d2; cr_dg := d2 |}
+          (fun cs => (d_for V x (fst (dv cs)), snd (dv cs))).
 Proof.
-  intros V d rb dv x r [HndV HneV] Hsim Hex Hfin HxV Hxnb E.
+  intros [HndV HneV] Hsim Hex Hfin HxV Hxnb Efx El E1 E2.
   assert (Hxne : x <> EmptyString) by (rewrite Forall_forall in HneV; apply HneV; exact HxV).
   pose proof Hsim as [Hinv [Hinc [[Hwf [Hpwf [Hdomb Hincl]]] Hcs]]].
-  unfold close_for in E. cbv zeta in E.
   destruct (comp_zero_sem x (cr_rel rb) Hxne Hwf Hpwf) as [W0 [P0 [Vs0 Hc0]]].
   pose proof (Rel_dom.rel_dom_comp (rel_zero [x]) (cr_rel rb) (Rel_dom.rel_dom_zero [x]) Hdomb) as D0.
   set (r0 := rel_comp (rel_zero [x]) (cr_rel rb)) in *.
-  destruct (rel_fixpoint fix_fuel r0) as [fx|] eqn:Efx; [|discriminate].
-  destruct (Rel_fix_closed.rel_fixpoint_sem fix_fuel r0 fx W0 P0 Efx) as [Wf [Pf [Nf [Vf Hcf]]]].
-  pose proof (Rel_dom.rel_dom_fixpoint fix_fuel r0 fx Efx D0) as Df.
+  destruct (Rel_fix_closed.rel_fixpoint_sem fuel r0 fx W0 P0 Efx) as [Wf [Pf [Nf [Vf Hcf]]]].
+  pose proof (Rel_dom.rel_dom_fixpoint fuel r0 fx Efx D0) as Df.
   set (Vr := rvars r0) in *.
   assert (HxR : In x Vr) by (apply Vs0; left; reflexivity).
   assert (Hxf : In x (rvars fx)) by (rewrite Vf; exact HxR).
-  destruct (Rel_corr.loop_correction_sem fx x Wf Pf Nf Hxf) as [rl [rec [El [Wl [Pl [Vl Hcl]]]]]].
-  rewrite El in E.
+  destruct (Rel_corr.loop_correction_sem fx x Wf Pf Nf Hxf) as [rl' [rec' [El' [Wl [Pl [Vl Hcl]]]]]].
+  rewrite El in El'. injection El' as <- <-.
   destruct (Rel_dom.rel_dom_loop_correction fx x rl rec El Df) as [Dl Drec].
   pose proof (loop_rec_sorted fx x rl rec El Pf) as Srec. rewrite Forall_forall in Srec.
-  destruct (dg_insert_all (cr_dg rb) rec) as [d1|] eqn:E1; cbn [rbind] in E; [|discriminate].
-  destruct (dg_fusion d1) as [d2|] eqn:E2; cbn [rbind] in E; [|discriminate].
-  inversion E; subst r; clear E.
   assert (HinclR : incl Vr V).
   { intros v Hv. apply Vs0 in Hv. destruct Hv as [->|Hv]; [exact HxV | apply Hincl; exact Hv]. }
   assert (HndR : NoDup Vr) by (destruct W0 as [H _]; exact H).
@@ -439,6 +456,18 @@ Proof.
       rewrite <- (l_extend_restrict V Vr x F u v HinclR HidF).
       apply (l_extend_ext V x F St HFSt u v Hu Hv).
     + split; [|discriminate]. intros _. apply Hiff. reflexivity.
+Qed.
+
+Theorem close_for_sim : close_for_sim_stmt.
+Proof.
+  intros V d rb dv x r Hn Hsim Hex Hfin HxV Hxnb E.
+  unfold close_for in E. cbv zeta in E.
+  destruct (rel_fixpoint fix_fuel (rel_comp (rel_zero [x]) (cr_rel rb))) as [fx|] eqn:Efx; [|discriminate].
+  destruct (loop_correction fx x) as [[rl rec]|] eqn:El; [|discriminate].
+  destruct (dg_insert_all (cr_dg rb) rec) as [d1|] eqn:E1; cbn [rbind] in E; [|discriminate].
+  destruct (dg_fusion d1) as [d2|] eqn:E2; cbn [rbind] in E; [|discriminate].
+  injection E as <-.
+  exact (close_for_core V d rb dv x fix_fuel fx rl rec d1 d2 Hn Hsim Hex Hfin HxV Hxnb Efx El E1 E2).
 Qed.
 
 Print Assumptions close_while_sim.
